@@ -7,32 +7,47 @@ Local Open Scope N_scope.
 Example odd_port : sport :=
   {| sp_settings := {| s_baud := Baud115200; s_csize := Bits7; s_parity := ParityEven;
                        s_stop := Stop2; s_flow := FlowHardware |};
-     sp_timeout := Some 1; sp_fail := FailNone |}.
+     sp_timeout := Some 1; sp_fail := FailNone; sp_max_timeout := None |}.
 
 Example odd_port_configured :
   serial_bus_try_new odd_port
   = Ok {| sp_settings := {| s_baud := Baud19200; s_csize := Bits8; s_parity := ParityNone;
                             s_stop := Stop1; s_flow := FlowNone |};
-          sp_timeout := Some 5000000000; sp_fail := FailNone |}
+          sp_timeout := Some 5000000000; sp_fail := FailNone; sp_max_timeout := None |}
   /\ odk_try_new odd_port
   = Ok {| sp_settings := {| s_baud := Baud19200; s_csize := Bits8; s_parity := ParityNone;
                             s_stop := Stop1; s_flow := FlowNone |};
-          sp_timeout := Some 10000000000; sp_fail := FailNone |}.
+          sp_timeout := Some 10000000000; sp_fail := FailNone; sp_max_timeout := None |}.
 Proof. vm_compute. auto. Qed.
 
 Example exotic_baud_configured :
   configure_port {| sp_settings := {| s_baud := BaudOther 31250; s_csize := Bits5;
                                       s_parity := ParityOdd; s_stop := Stop2;
                                       s_flow := FlowSoftware |};
-                    sp_timeout := None; sp_fail := FailNone |} 5000000000
-  = Ok {| sp_settings := wanted; sp_timeout := Some 5000000000; sp_fail := FailNone |}.
+                    sp_timeout := None; sp_fail := FailNone; sp_max_timeout := None |} 5000000000
+  = Ok {| sp_settings := wanted; sp_timeout := Some 5000000000; sp_fail := FailNone; sp_max_timeout := None |}.
 Proof. vm_compute. reflexivity. Qed.
 
 Example failing_port_errors :
-  map (fun fl => configure_port {| sp_settings := wanted; sp_timeout := None; sp_fail := fl |} 5000000000)
+  map (fun fl => configure_port {| sp_settings := wanted; sp_timeout := None; sp_fail := fl; sp_max_timeout := None |} 5000000000)
       [FailRead; FailSetBaud; FailWrite; FailTimeout]
   = [Err (PErr FailRead); Err (PErr FailSetBaud); Err (PErr FailWrite); Err (PErr FailTimeout)].
 Proof. vm_compute. reflexivity. Qed.
+
+(* A device that takes no timeout beyond 2^31 - 1 ms: a longer one is its refusal, not a shorter timeout. *)
+Example long_timeout_refused :
+  configure_port {| sp_settings := wanted; sp_timeout := Some 7; sp_fail := FailNone;
+                    sp_max_timeout := Some 2147483647000000 |} 2147483648000000
+  = Err (PErr FailTimeout)
+  /\ configure_port {| sp_settings := wanted; sp_timeout := Some 7; sp_fail := FailNone;
+                       sp_max_timeout := Some 2147483647000000 |} 2147483647000000
+     = Ok {| sp_settings := wanted; sp_timeout := Some 2147483647000000; sp_fail := FailNone;
+             sp_max_timeout := Some 2147483647000000 |}.
+Proof. vm_compute. auto. Qed.
+
+(* [timeout_accepted p t]: the device takes a read timeout of t nanoseconds. *)
+Check eq_refl : timeout_accepted = fun (p : sport) (t : N) =>
+  match sp_max_timeout p with Some l => t <=? l | None => true end.
 
 Theorem C20_wanted :
   wanted = {| s_baud := Baud19200; s_csize := Bits8; s_parity := ParityNone; s_stop := Stop1;
@@ -42,19 +57,21 @@ Print Assumptions C20_wanted.
 
 Theorem C20_ok_means_configured :
   forall p t p', configure_port p t = Ok p' ->
-  sp_settings p' = wanted /\ sp_timeout p' = Some t /\ sp_fail p = FailNone.
+  sp_settings p' = wanted /\ sp_timeout p' = Some t /\ sp_fail p = FailNone /\ timeout_accepted p t = true.
 Proof. exact PortP.C20_ok_means_configured. Qed.
 Print Assumptions C20_ok_means_configured.
 
 Theorem C20_serial_bus_ok :
   forall p p', serial_bus_try_new p = Ok p' ->
-  sp_settings p' = wanted /\ sp_timeout p' = Some 5000000000 /\ sp_fail p = FailNone.
+  sp_settings p' = wanted /\ sp_timeout p' = Some 5000000000 /\ sp_fail p = FailNone
+  /\ timeout_accepted p 5000000000 = true.
 Proof. exact PortP.C20_serial_bus_ok. Qed.
 Print Assumptions C20_serial_bus_ok.
 
 Theorem C20_odk_ok :
   forall p p', odk_try_new p = Ok p' ->
-  sp_settings p' = wanted /\ sp_timeout p' = Some 10000000000 /\ sp_fail p = FailNone.
+  sp_settings p' = wanted /\ sp_timeout p' = Some 10000000000 /\ sp_fail p = FailNone
+  /\ timeout_accepted p 10000000000 = true.
 Proof. exact PortP.C20_odk_ok. Qed.
 Print Assumptions C20_odk_ok.
 
@@ -63,16 +80,25 @@ Theorem C20_failure_is_error :
 Proof. exact PortP.C20_failure_is_error. Qed.
 Print Assumptions C20_failure_is_error.
 
+(* A timeout the device will not take is an error (the device's refusal), never a quietly shortened timeout. *)
+Theorem C20_refused_timeout_is_error :
+  forall p t, sp_fail p = FailNone -> timeout_accepted p t = false -> configure_port p t = Err (PErr FailTimeout).
+Proof. exact PortP.C20_refused_timeout_is_error. Qed.
+Print Assumptions C20_refused_timeout_is_error.
+
 Theorem C20_no_failure_is_ok :
-  forall p t, sp_fail p = FailNone ->
-  configure_port p t = Ok {| sp_settings := wanted; sp_timeout := Some t; sp_fail := FailNone |}.
+  forall p t, sp_fail p = FailNone -> timeout_accepted p t = true ->
+  configure_port p t
+  = Ok {| sp_settings := wanted; sp_timeout := Some t; sp_fail := FailNone; sp_max_timeout := sp_max_timeout p |}.
 Proof. exact PortP.C20_no_failure_is_ok. Qed.
 Print Assumptions C20_no_failure_is_ok.
 
 Theorem C20_configure_spec :
   forall p t,
-  (sp_fail p = FailNone /\
-   configure_port p t = Ok {| sp_settings := wanted; sp_timeout := Some t; sp_fail := FailNone |})
+  (sp_fail p = FailNone /\ timeout_accepted p t = true /\
+   configure_port p t = Ok {| sp_settings := wanted; sp_timeout := Some t; sp_fail := FailNone;
+                              sp_max_timeout := sp_max_timeout p |})
+  \/ (sp_fail p = FailNone /\ timeout_accepted p t = false /\ configure_port p t = Err (PErr FailTimeout))
   \/ (sp_fail p <> FailNone /\ configure_port p t = Err (PErr (sp_fail p))).
 Proof. exact PortP.C20_configure_spec. Qed.
 Print Assumptions C20_configure_spec.
@@ -84,8 +110,10 @@ Proof. exact PortP.C20_constructors_fail. Qed.
 Print Assumptions C20_constructors_fail.
 
 Theorem C20_constructors_succeed :
-  forall p, sp_fail p = FailNone ->
-  serial_bus_try_new p = Ok {| sp_settings := wanted; sp_timeout := Some 5000000000; sp_fail := FailNone |}
-  /\ odk_try_new p = Ok {| sp_settings := wanted; sp_timeout := Some 10000000000; sp_fail := FailNone |}.
+  forall p, sp_fail p = FailNone -> timeout_accepted p 10000000000 = true ->
+  serial_bus_try_new p = Ok {| sp_settings := wanted; sp_timeout := Some 5000000000; sp_fail := FailNone;
+                               sp_max_timeout := sp_max_timeout p |}
+  /\ odk_try_new p = Ok {| sp_settings := wanted; sp_timeout := Some 10000000000; sp_fail := FailNone;
+                           sp_max_timeout := sp_max_timeout p |}.
 Proof. exact PortP.C20_constructors_succeed. Qed.
 Print Assumptions C20_constructors_succeed.
